@@ -23,7 +23,7 @@ def apply(ctx, W):
     ])
 
     ss = W.file("semantic/semantic_state.rs")
-    fn_into_verus(ctx, ss, "SemanticState::add_item", mode="T", ret="res", tags=("C06", "C14", "C19"), ensures=[
+    fn_into_verus(ctx, ss, "SemanticState::add_item", ret="res", tags=("C06", "C14", "C19"), ensures=[
         """res is Ok ==> ({
             &&& final(self).type_registry.pointer_size == old(self).type_registry.pointer_size
             &&& final(self).type_registry.types@ == old(self).type_registry.types@.insert(item_definition.path, item_definition)
@@ -33,6 +33,10 @@ def apply(ctx, W):
                     ==> final(self).modules@[k] == old(self).modules@[k]
             &&& module_scope(&final(self).modules@[spec_parent(item_definition.path)->0]) == module_scope(&old(self).modules@[spec_parent(item_definition.path)->0])
             &&& final(self).modules@[spec_parent(item_definition.path)->0].extern_values == old(self).modules@[spec_parent(item_definition.path)->0].extern_values
+            &&& final(self).modules@[spec_parent(item_definition.path)->0].impls == old(self).modules@[spec_parent(item_definition.path)->0].impls
+            &&& final(self).modules@[spec_parent(item_definition.path)->0].backends == old(self).modules@[spec_parent(item_definition.path)->0].backends
+            &&& final(self).modules@[spec_parent(item_definition.path)->0].doc == old(self).modules@[spec_parent(item_definition.path)->0].doc
+            &&& final(self).modules@[spec_parent(item_definition.path)->0].path == old(self).modules@[spec_parent(item_definition.path)->0].path
             &&& final(self).modules@[spec_parent(item_definition.path)->0].definition_paths@ == old(self).modules@[spec_parent(item_definition.path)->0].definition_paths@.insert(item_definition.path)
         })""",
         "res is Err ==> *final(self) == *old(self)",
